@@ -1,4 +1,5 @@
 import Abmarl.Lemmas.Grid
+import Abmarl.Lemmas.MoversInactive
 /-!
 # C12 — Moves succeed exactly when the destination is free, and change only the mover
 
@@ -7,6 +8,10 @@ import Abmarl.Lemmas.Grid
   returns without error and its outcome satisfies the decidable specification `specC12`
   (`specMoveBy` / `specDrift` of `Spec/Grid.lean`).
 * `c12_*` — readings: what `specMoveBy` says in Prop form.
+* `C12_inactive_mover`, `C12_moves_any` — calls made for an agent that is NOT active (judge `specMoveAny`): the
+  call raises or returns with the world unchanged, for every action value; both cases together.
+* `inactive_mover_outcome` (`inactive_move_outcome`, `inactive_cross_outcome`, `inactive_drift_outcome`) — which
+  of the two it is: `KeyError` exactly when an attempt would have been carried out (`World.wouldMove`).
 -/
 namespace Abmarl
 open World
@@ -201,5 +206,282 @@ theorem C12_moves_judge (w : World) (c : MoveCall) (hI : w.WInv = true) (ha : c.
     (hact : (w.stOf c.agent).active = true) (hsp : c.inSpace w = true) :
     specMoveAny w c (runMoveCall w c) = true := by
   rw [specMoveAny_active w c _ hact]; exact C12_moves w c hI ha hact hsp
+
+end Abmarl
+
+namespace Abmarl
+open World
+
+/-! ### The mover is not active (round 6)
+
+Under `WInv` an agent that is not active stands in no cell (`World.not_mem_cell_of_inactive`), so the only
+operation of a move actor that could change the world - `Grid.remove` followed by `Grid.place` - raises
+`KeyError` at its first half (`World.remove_inactive`).  Everything before it only reads. -/
+
+/-- the drift actor's attempt along the stored orientation returns the world it was given -/
+theorem ghostDrift_world {w : World} {a : Aid} {r : Option Bool × World × Int}
+    (h : w.ghostDrift a = .ok r) : r.2.1 = w := by
+  unfold ghostDrift at h
+  split at h
+  · cases h
+  · split at h
+    · cases h
+    · cases h; rfl
+
+/-- **C12, inactive mover**, without any bound on the agent index and for EVERY action value (inside the
+declared action space or not): the call raises, or returns with the world unchanged. -/
+theorem C12_inactive_mover_any (w : World) (c : MoveCall) (hI : w.WInv = true)
+    (hin : (w.stOf c.agent).active = false) : specMoveAny w c (runMoveCall w c) = true := by
+  cases c with
+  | move a d =>
+    simp only [MoveCall.agent] at hin
+    simp only [specMoveAny, MoveCall.agent, hin, runMoveCall, moveAct_inactive hI hin]
+    by_cases hm : (w.cfgOf a).moving = true <;> by_cases h : w.wouldMove a d = true <;>
+      simp [hm, h, Except.map]
+  | cross a x =>
+    simp only [MoveCall.agent] at hin
+    simp only [specMoveAny, MoveCall.agent, hin, runMoveCall, crossAct_inactive hI hin]
+    by_cases hm : (w.cfgOf a).moving = true
+    · cases hd : crossTable x with
+      | none => simp [hm, Except.map]
+      | some d => by_cases h : w.wouldMove a d = true <;> simp [hm, h, Except.map]
+    · simp [hm, Except.map]
+  | drift a x =>
+    simp only [MoveCall.agent] at hin
+    simp only [specMoveAny, MoveCall.agent, hin, runMoveCall]
+    cases hr : w.driftAct a x with
+    | error e => simp [Except.map]
+    | ok r =>
+      have hw : r.2.1 = w := by
+        rw [driftAct_inactive hI hin] at hr
+        by_cases hsup : ((w.cfgOf a).moving && (w.cfgOf a).hasOrient) = true
+        · rw [if_pos hsup] at hr
+          by_cases hx : x = 0
+          · rw [if_neg (by simpa using hx)] at hr
+            exact ghostDrift_world hr
+          · rw [if_pos hx] at hr
+            cases hd : crossTable x with
+            | none => rw [hd] at hr; cases hr
+            | some d =>
+              rw [hd] at hr
+              by_cases h : w.wouldMove a d = true
+              · simp only [h, if_true] at hr; cases hr
+              · simp only [h, Bool.false_eq_true, if_false] at hr
+                exact ghostDrift_world hr
+        · rw [if_neg hsup] at hr
+          cases hr; rfl
+      simp [Except.map, hw]
+
+/-- **C12, inactive mover** (the clause the driver judges with `specMoveAny` when the agent of the call is
+not active): for every world satisfying `WInv`, every agent that is not active and EVERY action value - no
+`inSpace` hypothesis is needed - the call raises or returns with the world unchanged.  (The bound `ha` is
+not used: `C12_inactive_mover_any`.) -/
+theorem C12_inactive_mover (w : World) (c : MoveCall) (hI : w.WInv = true) (_ha : c.agent < w.n)
+    (hin : (w.stOf c.agent).active = false) : specMoveAny w c (runMoveCall w c) = true :=
+  C12_inactive_mover_any w c hI hin
+
+end Abmarl
+
+namespace Abmarl
+open World
+
+/-- **C12 for a call made for any agent**, active or not, in the form the driver judges: for every world
+satisfying `WInv`, every agent and every action of the action space the outcome satisfies `specMoveAny`. -/
+theorem C12_moves_any (w : World) (c : MoveCall) (hI : w.WInv = true) (ha : c.agent < w.n)
+    (hsp : c.inSpace w = true) : specMoveAny w c (runMoveCall w c) = true := by
+  cases hact : (w.stOf c.agent).active with
+  | true => exact C12_moves_judge w c hI ha hact hsp
+  | false => exact C12_inactive_mover w c hI ha hact
+
+end Abmarl
+
+namespace Abmarl
+open World
+
+/-! ### What exactly happens to a mover that is not active
+
+`World.wouldMove w a d`: the destination of the offset `d` from the STORED position of `a` is another cell,
+inside the grid, and `Grid.query` accepts `a` there.  `World.staysPut w a d`: the destination is the stored
+position itself and lies inside the grid (the actors answer `True` without touching the grid). -/
+
+/-- `MoveActor`: raises `KeyError` exactly when the move would have been carried out; otherwise answers with
+the world it was given (`True` only for the trivial move onto the stored position) -/
+theorem inactive_move_outcome (w : World) (a : Aid) (d : Pos) (hI : w.WInv = true)
+    (hin : (w.stOf a).active = false) (hmv : (w.cfgOf a).moving = true) :
+    runMoveCall w (.move a d) =
+      if w.wouldMove a d then .error .keyError else .ok ⟨some (w.staysPut a d), w, 0⟩ := by
+  simp only [runMoveCall, moveAct_inactive hI hin, hmv, if_true]
+  by_cases h : w.wouldMove a d = true <;> simp [h, Except.map]
+
+/-- `CrossMoveActor`, an action of the table -/
+theorem inactive_cross_outcome (w : World) (a : Aid) (x : Int) (d : Pos) (hI : w.WInv = true)
+    (hin : (w.stOf a).active = false) (hmv : (w.cfgOf a).moving = true) (hd : crossTable x = some d) :
+    runMoveCall w (.cross a x) =
+      if w.wouldMove a d then .error .keyError else .ok ⟨some (w.staysPut a d), w, x⟩ := by
+  simp only [runMoveCall, crossAct_inactive hI hin, hmv, if_true, hd]
+  by_cases h : w.wouldMove a d = true <;> simp [h, Except.map]
+
+/-- `CrossMoveActor`, an action outside the table: the assertion of `grid_action` -/
+theorem inactive_cross_outside (w : World) (a : Aid) (x : Int) (hI : w.WInv = true)
+    (hin : (w.stOf a).active = false) (hmv : (w.cfgOf a).moving = true) (hd : crossTable x = none) :
+    runMoveCall w (.cross a x) = .error .assertion := by
+  simp [runMoveCall, crossAct_inactive hI hin, hmv, hd, Except.map]
+
+/-- `DriftMoveActor`, stored orientation inside the table (offset `d'`): asked for a new direction `x ≠ 0` the
+FIRST attempt (offset of `x`) decides whenever it raises; when it is refused the SECOND attempt (along the
+stored orientation) decides; for `x = 0` only the second attempt is made.  A call that returns leaves the
+stored orientation in the action dictionary. -/
+theorem inactive_drift_outcome (w : World) (a : Aid) (x : Int) (d' : Pos) (hI : w.WInv = true)
+    (hin : (w.stOf a).active = false)
+    (hsup : ((w.cfgOf a).moving && (w.cfgOf a).hasOrient) = true)
+    (ho : crossTable ((w.stOf a).orient : Int) = some d') :
+    runMoveCall w (.drift a x) =
+      if x ≠ 0 then
+        match crossTable x with
+        | none => .error .assertion
+        | some d =>
+          if w.wouldMove a d then .error .keyError
+          else if w.wouldMove a d' then .error .keyError
+          else .ok ⟨some (w.staysPut a d'), w, ((w.stOf a).orient : Int)⟩
+      else if w.wouldMove a d' then .error .keyError
+      else .ok ⟨some (w.staysPut a d'), w, ((w.stOf a).orient : Int)⟩ := by
+  have hg : (w.ghostDrift a).map (fun r => (⟨r.1, r.2.1, r.2.2⟩ : MoveOut)) =
+      if w.wouldMove a d' then .error .keyError
+      else .ok ⟨some (w.staysPut a d'), w, ((w.stOf a).orient : Int)⟩ := by
+    simp only [ghostDrift, ho]
+    by_cases h : w.wouldMove a d' = true <;> simp [h, Except.map]
+  simp only [runMoveCall, driftAct_inactive hI hin, hsup, if_true]
+  by_cases hx : x = 0
+  · simp only [hx, ne_eq, not_true_eq_false, if_false]; exact hg
+  · simp only [ne_eq, hx, not_false_eq_true, if_true]
+    cases hd : crossTable x with
+    | none => rfl
+    | some d =>
+      by_cases h : w.wouldMove a d = true
+      · simp [h, Except.map]
+      · simp only [h, Bool.false_eq_true, if_false]; exact hg
+
+/-- the agent is one the actor supports -/
+def MoveCall.supported (w : World) : MoveCall → Bool
+  | .move a _ => (w.cfgOf a).moving
+  | .cross a _ => (w.cfgOf a).moving
+  | .drift a _ => (w.cfgOf a).moving && (w.cfgOf a).hasOrient
+
+/-- the offsets a call tries, in the order it tries them -/
+def MoveCall.attempts (w : World) : MoveCall → List Pos
+  | .move _ d => [d]
+  | .cross _ x => (crossTable x).toList
+  | .drift a x => (if x = 0 then [] else (crossTable x).toList) ++
+      (crossTable ((w.stOf a).orient : Int)).toList
+
+/-- the value in `action_dict['move']` after a call that returns -/
+def MoveCall.leftInactive (w : World) : MoveCall → Int
+  | .move _ _ => 0
+  | .cross _ x => x
+  | .drift a _ => ((w.stOf a).orient : Int)
+
+/-- under the invariant the stored orientation of an agent with an orientation is a real direction -/
+theorem orient_in_table {w : World} {a : Aid} (hI : w.WInv = true) (ha : a < w.n)
+    (hor : (w.cfgOf a).hasOrient = true) :
+    ∃ d, crossTable ((w.stOf a).orient : Int) = some d ∧ d ≠ (0, 0) := by
+  have hA := ((WInv_parts_iff w).1 hI).2.2.1 a ha
+  have h := ((wAgent_reading w a).1 hA).2.2.2.2.2.2 hor
+  have : (w.stOf a).orient = 1 ∨ (w.stOf a).orient = 2 ∨ (w.stOf a).orient = 3 ∨
+      (w.stOf a).orient = 4 := by omega
+  rcases this with h | h | h | h <;> rw [h] <;> exact ⟨_, rfl, by decide⟩
+
+/-- **the outcome of a call for a supported agent that is not active, action in the action space**: the call
+raises `KeyError` exactly when one of its attempts would have been carried out (the first such attempt raises:
+`inactive_drift_outcome`); otherwise it returns, with the world it was given, and with `False` unless its
+last attempt is the trivial move onto the stored position (possible for `MoveActor` with offset `(0,0)` and
+`CrossMoveActor` with action 0 only). -/
+theorem inactive_mover_outcome (w : World) (c : MoveCall) (hI : w.WInv = true) (ha : c.agent < w.n)
+    (hin : (w.stOf c.agent).active = false) (hsp : c.inSpace w = true) (hsup : c.supported w = true) :
+    runMoveCall w c =
+      if (c.attempts w).any (w.wouldMove c.agent) then .error .keyError
+      else .ok ⟨some ((c.attempts w).getLast?.elim false (w.staysPut c.agent)), w, c.leftInactive w⟩ := by
+  cases c with
+  | move a d =>
+    simp only [MoveCall.agent, MoveCall.supported] at ha hin hsup
+    rw [inactive_move_outcome w a d hI hin hsup]
+    simp [MoveCall.attempts, MoveCall.agent, MoveCall.leftInactive]
+  | cross a x =>
+    simp only [MoveCall.agent, MoveCall.supported] at ha hin hsup
+    simp only [MoveCall.inSpace, Bool.and_eq_true, decide_eq_true_eq] at hsp
+    obtain ⟨d, hd⟩ : ∃ d, crossTable x = some d := by
+      have : x = 0 ∨ x = 1 ∨ x = 2 ∨ x = 3 ∨ x = 4 := by omega
+      rcases this with h | h | h | h | h <;> subst h <;> exact ⟨_, rfl⟩
+    rw [inactive_cross_outcome w a x d hI hin hsup hd]
+    simp [MoveCall.attempts, MoveCall.agent, MoveCall.leftInactive, hd]
+  | drift a x =>
+    simp only [MoveCall.agent, MoveCall.supported] at ha hin hsup
+    simp only [MoveCall.inSpace, Bool.and_eq_true, decide_eq_true_eq] at hsp
+    have hor : (w.cfgOf a).hasOrient = true := by
+      simp only [Bool.and_eq_true] at hsup; exact hsup.2
+    obtain ⟨d', hd', hne'⟩ := orient_in_table hI ha hor
+    obtain ⟨d, hd⟩ : ∃ d, crossTable x = some d := by
+      have : x = 0 ∨ x = 1 ∨ x = 2 ∨ x = 3 ∨ x = 4 := by omega
+      rcases this with h | h | h | h | h <;> subst h <;> exact ⟨_, rfl⟩
+    rw [inactive_drift_outcome w a x d' hI hin hsup hd']
+    have hs : w.staysPut a d' = false := staysPut_of_ne hne'
+    by_cases hx : x = 0
+    · subst hx
+      simp [MoveCall.attempts, MoveCall.agent, MoveCall.leftInactive, hd', hs]
+    · by_cases h1 : w.wouldMove a d = true <;> by_cases h2 : w.wouldMove a d' = true <;>
+        simp [MoveCall.attempts, MoveCall.agent, MoveCall.leftInactive, hd', hd, hs, hx, h1, h2]
+
+end Abmarl
+
+namespace Abmarl
+open World
+
+/-! ## Non-vacuity: a 2×2 world with one dead agent
+
+Agent 0 (encoding 1, a mover with an orientation `o`) is dead: health 0, not active, in no cell, its stored
+position still `(0,0)`.  Agent 1 (encoding 2, which 1 may not join) stands at `(0,1)`; the cell below, `(1,0)`,
+is empty. -/
+
+def exDead (o : Nat) : World :=
+  { rows := 2, cols := 2, overlap := [(1, [1])],
+    cells := [[], [1], [], []],
+    cfg := [{ enc := 1, moving := true, moveRange := 1, hasOrient := true }, { enc := 2 }],
+    st := [{ pos := (0, 0), health := 0, active := false, orient := o }, { pos := (0, 1) }] }
+
+example : (exDead 2).WInv = true ∧ (exDead 4).WInv = true := by decide
+example : ((exDead 2).stOf 0).active = false ∧ (0 : Aid) < (exDead 2).n := by decide
+/-- both outcomes, all three actors: downwards (free cell) the call raises `KeyError`; to the right (a cell the
+mover may not join) and upwards (outside the grid) it is refused and the world stays; the trivial move
+answers `True` -/
+example :
+    (match runMoveCall (exDead 2) (.move 0 (1, 0)) with | .error .keyError => true | _ => false) = true ∧
+    (match runMoveCall (exDead 2) (.move 0 (0, 1)) with
+      | .ok o => o.ret == some false && o.post == exDead 2 | _ => false) = true ∧
+    (match runMoveCall (exDead 2) (.move 0 (0, 0)) with
+      | .ok o => o.ret == some true && o.post == exDead 2 | _ => false) = true ∧
+    (match runMoveCall (exDead 2) (.cross 0 2) with | .error .keyError => true | _ => false) = true ∧
+    (match runMoveCall (exDead 2) (.cross 0 3) with
+      | .ok o => o.ret == some false && o.post == exDead 2 | _ => false) = true ∧
+    (match runMoveCall (exDead 2) (.cross 0 7) with | .error .assertion => true | _ => false) = true := by
+  decide
+/-- the drift actor: the first attempt raises (down); the first is refused (right) and the second (down, the
+stored orientation) raises; both are refused (right, then up out of the grid) and the stored orientation is
+left in the action dictionary -/
+example :
+    (match runMoveCall (exDead 4) (.drift 0 2) with | .error .keyError => true | _ => false) = true ∧
+    (match runMoveCall (exDead 2) (.drift 0 3) with | .error .keyError => true | _ => false) = true ∧
+    (match runMoveCall (exDead 2) (.drift 0 0) with | .error .keyError => true | _ => false) = true ∧
+    (match runMoveCall (exDead 4) (.drift 0 3) with
+      | .ok o => o.ret == some false && o.post == exDead 4 && o.left == 4 | _ => false) = true := by
+  decide
+/-- the judge accepts both kinds of outcome, and it is not trivially true: a returned world that differs is
+rejected -/
+example :
+    specMoveAny (exDead 2) (.cross 0 2) (runMoveCall (exDead 2) (.cross 0 2)) = true ∧
+    specMoveAny (exDead 2) (.cross 0 3) (runMoveCall (exDead 2) (.cross 0 3)) = true ∧
+    specMoveAny (exDead 2) (.cross 0 3) (.ok ⟨some false, exDead 3, 3⟩) = false := by decide
+example :
+    ((MoveCall.drift 0 3).attempts (exDead 2) = [(0, 1), (1, 0)]) ∧
+    ((exDead 2).wouldMove 0 (0, 1) = false) ∧ ((exDead 2).wouldMove 0 (1, 0) = true) ∧
+    ((exDead 2).staysPut 0 (0, 0) = true) := by decide
 
 end Abmarl
